@@ -16,6 +16,7 @@ mod vp8frame;
 mod readimage;
 mod vp8recon;
 mod vp8decode;
+mod c10bits;
 mod c13;
 mod c10;
 mod c11;
@@ -63,6 +64,7 @@ fn main() {
         "readimage" => readimage::run(tier, seed, out, extra),
         "vp8recon" => vp8recon::run(tier, seed, out, extra),
         "vp8decode" => vp8decode::run(tier, seed, out, extra),
+        "c10bits" => c10bits::run(tier, seed, out, extra),
         "c13" => c13::run(tier, seed, out, extra),
         "c10" => c10::run(tier, seed, out, extra),
         "c11" => c11::run(tier, seed, out, extra),
